@@ -1,10 +1,16 @@
 (* Check/Chk_C02.v -- correspondence checker for C02.
-   An [Ens] case carries what the real EnsembleEvaluator.calculate(compute_functions=True,
-   compute_gradients=True) reported for one configuration: variables, reported perturbed variables,
-   per-realization (perturbed) function values after NaN propagation, the weights in force, the failure
-   flags and the gradients.  [check_case] re-runs Model/Gradient.v on the reported inputs and compares:
+   An [Ens] case carries what the real EnsembleEvaluator.calculate reported for the LAST request of a
+   sequence of requests on one evaluator object (function / gradient / combined requests, possibly at
+   other points, issued directly or through EnsembleOptimizer's optimizer callback): variables,
+   reported perturbed variables, per-realization (perturbed) function values after NaN propagation, the
+   weights in force, the failure flags and the gradients; plus the rows the user's evaluator actually
+   received for the perturbations and, for requests issued through the optimizer callback, the matrix
+   the callback returned.  [check_case] re-runs Model/Gradient.v on the reported inputs and compares:
    failure flags, gate and exact zeros exactly, gradients with Num.close; on affine cases it also
-   compares with the closed form of the property.  An [Ls] case is one call of the real
+   compares with the closed form of the property (slopes are given in user coordinates and are
+   scaled here with the VariableScaler of the case); the evaluated rows must be the reported
+   perturbed variables mapped with from_optimizer; the callback's matrix must be exactly
+   [optimizer_matrix] of the reported gradients.  An [Ls] case is one call of the real
    _invert_linear_equations.
 
    Squared singular values come from NumPy (LAPACK oracle).  They are only used through the model's own
@@ -25,10 +31,11 @@ Record fcase := {
   f_grad : vec;                     (* reported gradient (all variables), NaN entries printed as 0 *)
   f_nan : bool;                     (* the reported gradient contains NaN *)
   f_sigma : Q;                      (* stddev rows: the standard deviation (certified below) *)
-  f_slopes : option (list vec)      (* affine cases: exact slopes per realization, all variables *)
+  f_s2m : list Q;                   (* merged: squared singular values of the stacked system of this function *)
+  f_slopes : option (list vec)      (* affine cases: exact slopes per realization, all variables, USER coordinates *)
 }.
 
-Inductive outcome := OGrad | ONone | OAbort | OError.
+Inductive outcome := OGrad | ONone | OAbort | OError | OConfig.
 
 Record ens_case := {
   c_S : Q;                          (* tolerance scale *)
@@ -41,14 +48,17 @@ Record ens_case := {
   c_failed : list bool;             (* reported failed_realizations of the gradient results *)
   c_merge : bool;
   c_s2 : list (list Q);             (* per realization: squared singular values of its difference system *)
-  c_s2m : list Q;                   (* merged: squared singular values of the stacked system *)
   c_funcs : list fcase;             (* objectives, then constraints *)
   c_nobj : nat;
   c_ow : vec;                       (* objective weights *)
   c_wgrad : vec;                    (* reported weighted-objective gradient, NaN entries printed as 0 *)
   c_wnan : bool;                    (* it contains NaN *)
   c_outcome : outcome;
-  c_abort_checkable : bool          (* no realization filter configured: aborts come from the estimator only *)
+  c_abort_checkable : bool;         (* no realization filter configured: aborts come from the estimator only *)
+  c_scales : vec;                   (* VariableScaler: scales (ones when there is none) *)
+  c_offsets : vec;                  (* VariableScaler: offsets (zeros when there are none) *)
+  c_evalx : option (list mat);      (* rows the evaluator received for the perturbations (user coordinates) *)
+  c_cb : option (list vec)          (* matrix returned by the optimizer callback (requests issued through it) *)
 }.
 
 Inductive case :=
@@ -77,9 +87,10 @@ Fixpoint contributing {A} (wh : vec) (l : list A) : list A :=
   end.
 
 (* values are compared iff the code's own truncation rule keeps everything in every contributing system *)
+(* merged estimation is ONE solve of the stacked system: only its singular values decide *)
 Definition comparable (n : nat) (merge : bool) (wh : vec) (s2 : list (list Q)) (s2m : list Q) : bool :=
-  forallb (fun s => keeps_all svd_tolerance s && (length s =? n)%nat) (contributing wh s2)
-  && (negb merge || (keeps_all svd_tolerance s2m && (length s2m =? n)%nat)).
+  if merge then keeps_all svd_tolerance s2m && (length s2m =? n)%nat
+  else forallb (fun s => keeps_all svd_tolerance s && (length s =? n)%nat) (contributing wh s2).
 
 Definition check_function (c : ens_case) (f : fcase) : bool :=
   let mask := c_mask c in
@@ -91,7 +102,7 @@ Definition check_function (c : ens_case) (f : fcase) : bool :=
   | None => true                               (* no surviving weight: outside the property *)
   | Some wh =>
       if f_nan f then false else                 (* NaN although a successful realization carries weight *)
-      if negb (comparable n (c_merge c) wh (c_s2 c) (c_s2m c)) then true else
+      if negb (comparable n (c_merge c) wh (c_s2 c) (f_s2m f)) then true else
       let rsf := map (restrict_rdata mask) rs in
       let xf := restrict_free mask (c_x c) in
       match compute_gradient mask (c_x c) rs (c_failed c) (f_w f) (f_est f) (c_merge c) with
@@ -100,7 +111,7 @@ Definition check_function (c : ens_case) (f : fcase) : bool :=
           match f_slopes f with
           | None => true
           | Some sl =>
-              let slf := map (restrict_free mask) sl in
+              let slf := map (fun a => restrict_free mask (scale_slope (c_scales c) a)) sl in
               if negb (c_merge c)
                  || all_equal mat_eqb (contributing wh (map (fun r => fst (system_of xf r)) rsf))
                  || all_equal vec_eqb (contributing wh slf)
@@ -111,12 +122,15 @@ Definition check_function (c : ens_case) (f : fcase) : bool :=
           let sigma := f_sigma f in
           Qleb 0 sigma && close (S * S) (sigma * sigma) var &&
           vclose (S * S) (qscale sigma (f_grad f)) sg &&
+          (* sigma = 0: the estimator returns zeros *)
+          (negb (Qeqb sigma 0) || forallb (fun y => Qeqb y 0) (f_grad f)) &&
           match f_slopes f with
           | None => true
           | Some sl =>
               vclose (S * S) (qscale sigma (f_grad f))
                      (expand_with_zeros mask
-                        (affine_sd_gradient n wh (nan_to_num (f_f0 f)) (map (restrict_free mask) sl)))
+                        (affine_sd_gradient n wh (nan_to_num (f_f0 f))
+                           (map (fun a => restrict_free mask (scale_slope (c_scales c) a)) sl)))
           end
       | GNoWeight => true
       | GSingular | GTooFew | GConfig => false
@@ -130,6 +144,33 @@ Definition too_few (failed : list bool) (f : fcase) : bool :=
   | EStd => (count_nonzero (zero_failed failed (f_w f)) <? min_stddev_realizations)%nat
   end.
 
+(* NaN propagation: a failed evaluation is failed for every function (same None pattern in all functions) *)
+Definition none_pattern (f : fcase) : list bool * list (list bool) :=
+  (map is_none (f_f0 f), map (map is_none) (f_fp f)).
+Definition pattern_eqb (a b : list bool * list (list bool)) : bool :=
+  list_eqb Bool.eqb (fst a) (fst b) && list_eqb (list_eqb Bool.eqb) (snd a) (snd b).
+Definition uniform_failures (fs : list fcase) : bool :=
+  match fs with [] => true | f0 :: t => forallb (fun f => pattern_eqb (none_pattern f0) (none_pattern f)) t end.
+
+(* the rows the evaluator received are the reported perturbed variables in user coordinates *)
+Definition evaluated_ok (c : ens_case) : bool :=
+  match c_evalx c with
+  | None => true
+  | Some E =>
+      forallb2 (fun Xr Er => forallb2 (fun p e => vclose (c_S c) e (from_optimizer (c_scales c) (c_offsets c) p)) Xr Er)
+               (c_X c) E
+  end.
+
+(* the matrix handed to the optimizer is exactly [weighted-objective gradient; constraint gradients] on the
+   free variables (a copy: compared exactly) *)
+Definition callback_ok (c : ens_case) : bool :=
+  match c_cb c with
+  | None => true
+  | Some M =>
+      existsb f_nan (c_funcs c) || c_wnan c ||
+      list_eqb vec_eqb M (optimizer_matrix (c_mask c) (c_wgrad c) (map f_grad (skipn (c_nobj c) (c_funcs c))))
+  end.
+
 Definition check_ens (c : ens_case) : bool :=
   match c_funcs c with
   | [] => false
@@ -137,7 +178,15 @@ Definition check_ens (c : ens_case) : bool :=
       let rs0 := mk_rdata (c_X c) (f_f0 f0) (f_fp f0) in
       let failed_fn := map (fun r => is_none (r_f0 r)) rs0 in
       let failed := map (failed_grad (c_pmin c)) rs0 in
+      (* a stddev estimator with merged realizations is rejected when the evaluator is built (GConfig), and
+         only then *)
+      let rejected := c_merge c && existsb (fun f => match f_est f with EStd => true | EMean => false end) (c_funcs c) in
       match c_outcome c with
+      | OConfig => rejected
+      | _ => negb rejected
+      end &&
+      match c_outcome c with
+      | OConfig => true
       | OAbort =>
           negb (c_abort_checkable c) ||
           (gate (c_rmin c) failed_fn && existsb (too_few failed_fn) (c_funcs c)) ||
@@ -151,6 +200,7 @@ Definition check_ens (c : ens_case) : bool :=
           list_eqb Bool.eqb failed_fn (c_failed_fn c) &&
           list_eqb Bool.eqb failed (c_failed c) && gate (c_rmin c) failed &&
           forallb (check_function c) (c_funcs c) &&
+          uniform_failures (c_funcs c) && evaluated_ok c && callback_ok c &&
           (* weighted-objective gradient = objective-weighted sum of the reported objective gradients *)
           masked_zero (c_mask c) (c_wgrad c) &&
           (if c_wnan c then existsb f_nan (firstn (c_nobj c) (c_funcs c))
